@@ -8,6 +8,7 @@ pub mod journp;
 pub mod offp;
 pub mod permp;
 pub mod plogp;
+pub mod sdkp;
 pub mod selp;
 pub mod plogp2;
 pub mod schedp;
@@ -30,6 +31,7 @@ pub fn plan(prop: &str, tier: &str) -> Option<(PropMeta, Vec<Job>)> {
         "C11" => Some(journp::plan(tier)),
         "C12" => Some(schedp::plan_c12(tier)),
         "C04" => Some(crashp::plan(tier)),
+        "C20" => Some(sdkp::plan(tier)),
         _ => None,
     }
 }
@@ -49,6 +51,7 @@ pub fn run_job(job: &Job) -> JobResult {
         "C11" => journp::run_job(job),
         "C12" => schedp::run_job(job),
         "C04" => crashp::run_job(job),
+        "C20" => sdkp::run_job(job),
         p => JobResult { machinery_error: Some(format!("unknown property {p}")), ..Default::default() },
     }
 }
@@ -63,6 +66,9 @@ pub fn replay(prop: &str, replay: &Value) -> Vec<Violation> {
         Some("grp") => grpp::replay(replay),
         Some("sel") => selp::replay(replay),
         Some("sched") => schedp::replay(replay),
+        Some("crash") => crashp::replay(replay),
+        Some("perm-history") => permp::replay(replay),
+        Some("sdk") => sdkp::replay(replay),
         _ => Vec::new(),
     }
 }
